@@ -18,6 +18,8 @@ func init() {
 		fds := funcDecls(p)
 		main := fds["main"]
 		g.pf("def mainBody : String :=\n  %s\n\n", leanStr(canonFunc(p, main)))
+		// the file filter's question to go/build (which files are in the package with and without the tag goose)
+		g.pf("def inBothViewsBody : String :=\n  %s\n\n", leanStr(canonFunc(p, fds["inBothViews"])))
 		var regexes, suffixes, prefixes []string
 		if main != nil {
 			ast.Inspect(main.Body, func(n ast.Node) bool {
